@@ -100,6 +100,10 @@ class _User:
     name = 'kim'
 
 
+class UserArithmeticError(ArithmeticError):
+    pass
+
+
 class UserErrPrefix(Exception):
     def __init__(self, what):
         super().__init__('failed: %s' % (what,))
@@ -128,6 +132,8 @@ CATALOGUE = [
     ('MyGlomErrArity', lambda: MyGlomErrArity('a', 'b')),
     ('MyGlomErrPrefix', lambda: MyGlomErrPrefix('disk')), ('UserErrPrefix', lambda: UserErrPrefix('disk')),
     ('MyGlomErrTyped', lambda: MyGlomErrTyped(7)), ('MyGlomErrObj', lambda: MyGlomErrObj(_User())),
+    ('OverflowError', lambda: OverflowError(34, 'Numerical result out of range')), ('FloatingPointError', lambda: FloatingPointError('fp')),
+    ('UserArithmeticError', lambda: UserArithmeticError('ledger out of balance')),
     ('DynErr(Exception)', lambda: _dyn(Exception)), ('DynErr(ValueError)', lambda: _dyn(ValueError)), ('DynErr(KeyError)', lambda: _dyn(KeyError)),
     ('KeyboardInterrupt', lambda: KeyboardInterrupt()), ('SystemExit', lambda: SystemExit(3)), ('MyBase', lambda: MyBase('base')),
 ]
@@ -354,6 +360,14 @@ class _FaultyNode:
     def __delitem__(self, k):
         raise self._raiser.exc
 
+    def __mul__(self, other):
+        raise self._raiser.exc
+
+    __add__ = __truediv__ = __pow__ = __and__ = __mod__ = __floordiv__ = __mul__
+
+    def __neg__(self):
+        raise self._raiser.exc
+
     def __setattr__(self, name, v):
         raise self._raiser.exc
 
@@ -399,13 +413,18 @@ def target_raised_faults(col, rng, n_exc):
         ('T-star-in-list', lambda: ('groups', [T.__star__().prop]), (AttributeError,)),
         # the final step of an Assign / Delete given as T expression: item and attribute stores / deletions of the target
         # that raise (Delete documents KeyError / IndexError / AttributeError there as "missing": PathDeleteError)
+        # arithmetic of the target's own objects that raises (documented as positions of a PathAccessError: TypeError and
+        # ZeroDivisionError; an OverflowError or a user's ArithmeticError subclass is not)
+        ('T-arith-mul', lambda: T['one'] * 2, (TypeError, ZeroDivisionError)), ('T-arith-div', lambda: T['one'] / 3.0, (TypeError, ZeroDivisionError)),
+        ('T-arith-pow', lambda: T['one'] ** 2, (TypeError, ZeroDivisionError)), ('T-arith-floordiv', lambda: T['one'] // 2, (TypeError, ZeroDivisionError)),
+        ('T-arith-neg', lambda: -T['one'], (TypeError, ZeroDivisionError)),
         ('Assign-T-item', lambda: Assign(T['one']['k'], 1), ()), ('Assign-T-attr', lambda: Assign(T['one'].attr, 1), ()),
         ('Delete-T-item', lambda: Delete(T['one']['k']), (KeyError, IndexError)), ('Delete-T-attr', lambda: Delete(T['one'].attr), (AttributeError,)),
         ('Assign-T-item-behind-star', lambda: Assign(T['items'].__star__()['k'], 1), ()),
         ('Delete-T-attr-behind-star', lambda: Delete(T['items'].__star__().attr), (AttributeError,)),
         ('Delete-T-item-ignore-missing', lambda: Delete(T['one']['k'], ignore_missing=True), (KeyError, IndexError)),
     ]
-    always = [c for c in CATALOGUE if c[0] in ('MyGlomErr', 'MyGlomErrInit', 'MyGlomErrPrefix', 'MyGlomErrTyped', 'ValueError', 'UserErr', 'TypeError', 'KeyError')]
+    always = [c for c in CATALOGUE if c[0] in ('MyGlomErr', 'MyGlomErrInit', 'MyGlomErrPrefix', 'MyGlomErrTyped', 'ValueError', 'UserErr', 'TypeError', 'KeyError', 'OverflowError', 'UserArithmeticError')]
     for name, mk, native in shapes:
         for ename, mkexc in always + rng.sample(CATALOGUE, n_exc):
             probe = mkexc()
@@ -421,6 +440,29 @@ def target_raised_faults(col, rng, n_exc):
                 col.count('faults_injected')
                 col.count('target_raised_faults')
                 judge_escape(col, e, got, kw, cell, 'fault raised by the target at %s' % name, 'target access ' + name)
+
+
+def default_object_is_returned_itself(col):
+    """"replaced by the default object itself": whatever the default is - a container, a T expression, a Spec - it is not
+    interpreted, copied or evaluated; through glom(), Glommer.glom and Spec.glom"""
+    from glom import Spec, Glommer
+    g = Glommer()
+    defaults = [('list', lambda: ['d', T['x']]), ('dict', lambda: {'k': T}), ('tuple', lambda: (T, 1)), ('set', lambda: {1, 2}),
+                ('empty-list', lambda: []), ('T', lambda: T['nope']['deeper']), ('bare-T', lambda: T), ('Val', lambda: Val(3)),
+                ('Spec', lambda: Spec('a.b')), ('callable', lambda: len), ('string', lambda: 'a.b')]
+    entries = [('glom', lambda t, s, **kw: G(t, s, **kw)), ('Glommer.glom', lambda t, s, **kw: g.glom(t, s, **kw)),
+               ('Spec.glom', lambda t, s, **kw: Spec(s).glom(t, **kw))]
+    for dname, mk in defaults:
+        for ename, entry in entries:
+            for sname, extra in (('default-only', {}), ('skip_exc', {'skip_exc': KeyError}), ('skip_exc-tuple', {'skip_exc': (ValueError, GlomError)})):
+                d = mk()
+                got = call_base(entry, {'a': 1}, 'zz.q', default=d, **extra)
+                col.case(('default-identity', dname, ename, sname), True)
+                col.count('default_identity_checks')
+                if not got.ok or got.value is not d:
+                    col.violation('C04/default-not-returned-itself:%s:%s' % (dname, ename),
+                                  '%s({..}, "zz.q", default=<%s>%s): %r, expected the very object passed as default'
+                                  % (ename, dname, ', ' + sname if extra else '', got), None)
 
 
 class Unreg:
@@ -470,6 +512,7 @@ def run(ctx):
     col.require('faults_absorbed', 20)
     if ctx.shard == 0:
         glom_detected(col)
+        default_object_is_returned_itself(col)
         col.require('glom_detected_runs', 500)
     argument_position_faults(col, rng, 1 if not ctx.thorough else 6)
     col.require('argument_position_faults', 500)
